@@ -1701,6 +1701,166 @@ def _numeric_worker(tname, acc):
     return acc
 
 
+# ------------------------------------------------------------------------------------------------ clone routes
+
+import copy as _copy  # noqa: E402
+import pickle as _pickle  # noqa: E402
+
+
+def clone_problems(T, clone, e):
+    """A clone of a value (however obtained) must be indistinguishable from the value rebuilt from its components:
+    returns [(law, description)]."""
+    v = e.value
+    out = []
+    if type(clone) is not type(v):
+        return [("type", "clone is a %s" % type(clone).__name__)]
+    eq = _quiet(lambda: (clone == v, v == clone, clone != v))
+    if eq != (True, True, False):
+        out.append(("equal", "clone == value, value == clone, clone != value give %r" % (eq,)))
+    hc, hv = _quiet(lambda: hash(clone)), _quiet(lambda: hash(v))
+    if isinstance(hc, Exception) != isinstance(hv, Exception) or (not isinstance(hc, Exception) and hc != hv):
+        out.append(("hash", "hash(clone) = %s, hash(value) = %s" % (_trim(hc), _trim(hv))))
+    elif not isinstance(hc, Exception):
+        look = _quiet(lambda: ({v: "k"}.get(clone), {clone: "k"}.get(v), clone in {v}, len({clone, v})))
+        if look != ("k", "k", True, 1):
+            out.append(("set-dict", "dict lookups both ways / set membership / size of {clone, value} give %s" % _trim(look)))
+    kc = _quiet(lambda: tuple(T.observe(clone)))
+    if kc != e.key:
+        out.append(("components", "clone shows components %s, value was built from %r" % (_trim(kc), e.key)))
+    if observe(clone) != observe(v):
+        out.append(("observation", "public observations differ: %s vs %s" % (_trim(observe(clone)), _trim(observe(v)))))
+    rep = representation_mismatch(clone, v)
+    if rep:
+        out.append(("representation", "; ".join(rep[:3])))
+    return out
+
+
+CLONE_ROUTES = (("pickle", lambda v: _pickle.loads(_pickle.dumps(v))), ("copy.copy", _copy.copy), ("copy.deepcopy", _copy.deepcopy))
+
+CHILD_SCRIPT = """
+import sys
+_pad = [bytearray(4096) for _ in range(int(sys.argv[3]))]    # move the heap: object addresses (identity hashes) differ from the parent's
+_more = [object() for _ in range(int(sys.argv[3]) * 7)]
+from vf.checks import c12
+c12.clone_child_main(sys.argv[1], sys.argv[2])
+"""
+
+
+def dump_alphabets():
+    """{type name: [(label, pickle bytes or None)]} for every alphabet value of this process."""
+    out = {}
+    for T in TYPES:
+        rows = []
+        for e in T.entries:
+            try:
+                rows.append((e.label, _pickle.dumps(e.value)))
+            except Exception:  # noqa: BLE001
+                rows.append((e.label, None))
+        out[T.name] = rows
+    return out
+
+
+def compare_foreign_alphabets(dumped, direction):
+    """Load values pickled by ANOTHER process and compare each with the same value rebuilt here: [(type, label, law, text)]."""
+    problems = []
+    counts = {"loaded": 0, "not picklable": 0, "unpickle refused": 0}
+    for T in TYPES:
+        rows = dumped.get(T.name) or []
+        by_label = {}
+        for e in T.entries:
+            by_label.setdefault(e.label, e)
+        for label, blob in rows:
+            e = by_label.get(label)
+            if e is None:
+                continue
+            if blob is None:
+                counts["not picklable"] += 1
+                continue
+            try:
+                clone = _pickle.loads(blob)
+            except Exception as x:  # noqa: BLE001
+                counts["unpickle refused"] += 1          # same refusal as the in-process pickle route: not clonable, nothing to compare
+                continue
+            counts["loaded"] += 1
+            for law, what in clone_problems(T, clone, e):
+                problems.append((T.name, label, law, what))
+    return problems, counts
+
+
+def clone_child_main(in_path, out_path):
+    build_all()
+    with open(in_path, "rb") as f:
+        dumped = _pickle.load(f)
+    problems, counts = compare_foreign_alphabets(dumped, "parent->child")
+    with open(out_path, "wb") as f:
+        _pickle.dump({"problems": problems, "counts": counts, "alphabets": dump_alphabets(),
+                      "calendar_hash": hash(ISO), "build_failures": [(t, l, repr(x)) for t, l, x in BUILD_FAILURES]}, f)
+
+
+def clones_worker(tname):
+    return _guarded("clones", tname, _clones_worker, tname)
+
+
+def _clones_worker(tname, acc):
+    """In-process clone routes of every alphabet value of one type."""
+    build_all()
+    T = TYPE_BY_NAME[tname]
+    P = "C12/%s/clone" % T.name
+    for e in T.entries:
+        for rname, fn in CLONE_ROUTES:
+            acc.count(states=1, transitions=1, evaluations=1)
+            try:
+                c = fn(e.value)          # pickle / copy raise from C code called in this frame: any exception is a refusal
+            except Exception as x:  # noqa: BLE001
+                c = x
+            if isinstance(c, Exception):
+                acc.outcome("%s: %s refused (%s)" % (T.name, rname, type(c).__name__))
+                continue
+            acc.outcome("%s cloned by %s" % (T.name, rname))
+            if c is not e.value:
+                acc.count(nontrivial=1)
+            for law, what in clone_problems(T, c, e):
+                acc.violation("%s/%s/%s" % (P, rname, law), "%s of %s: %s" % (rname, e.label, what), {"type": T.name, "values": [e.label], "route": rname})
+    return acc
+
+
+def cross_process_clones(ctx):
+    """Pickle every alphabet here, load and compare in a child interpreter whose heap is laid out differently, and the reverse."""
+    import os
+    import shutil
+    import subprocess
+    import sys
+    import tempfile
+    acc = Acc()
+    tmp = tempfile.mkdtemp(prefix="vf-c12-clone-")
+    try:
+        inp, outp = os.path.join(tmp, "parent.pkl"), os.path.join(tmp, "child.pkl")
+        with open(inp, "wb") as f:
+            _pickle.dump(dump_alphabets(), f)
+        pad = 20_000 + 3_001 * (ctx.seed % 7)
+        args = [sys.executable] + (["-O"] if sys.flags.optimize else []) + ["-c", CHILD_SCRIPT, inp, outp, str(pad)]
+        r = subprocess.run(args, env=dict(os.environ), capture_output=True, text=True)
+        if r.returncode != 0 or not os.path.exists(outp):
+            raise RuntimeError("clone child failed (exit %d): %s" % (r.returncode, r.stderr[-1500:]))
+        with open(outp, "rb") as f:
+            res = _pickle.load(f)
+        acc.note("cross-process clones", {"parent->child": res["counts"], "child calendar identity hash differs": res["calendar_hash"] != hash(ISO)})
+        if res["calendar_hash"] == hash(ISO):
+            acc.degrade("cross-process clone route: the child's CalendarSystem.iso has the same identity hash as the parent's (heap padding had no effect)")
+        back, counts = compare_foreign_alphabets(res["alphabets"], "child->parent")
+        acc.note("cross-process clones (reverse)", {"child->parent": counts})
+        n = res["counts"]["loaded"] + counts["loaded"]
+        acc.count(states=n, transitions=n, evaluations=n, nontrivial=n)
+        for direction, probs in (("parent->child", res["problems"]), ("child->parent", back)):
+            for tn, label, law, what in probs:
+                acc.violation("C12/%s/clone/cross-process/%s" % (tn, law), "%s pickled in one process and loaded in another (%s): %s" % (label, direction, what),
+                              {"type": tn, "values": [label], "route": "cross-process " + direction})
+        acc.outcome("cross-process pickle clones compared in both directions")
+    finally:
+        shutil.rmtree(tmp, ignore_errors=True)
+    return acc
+
+
 # ------------------------------------------------------------------------------------------------ run / replay
 
 def _rot(xs, seed):
@@ -1732,6 +1892,10 @@ def run(ctx):
     if not only or "numeric" in only:
         for acc in pmap(numeric_worker, _rot([t.name for t in TYPES], seed), ctx.procs):
             ctx.merge_part("numeric-argument", acc)
+    if not only or "clones" in only:
+        for acc in pmap(clones_worker, _rot([t.name for t in TYPES], seed), ctx.procs):
+            ctx.merge_part("clone routes (in-process)", acc)
+        ctx.merge_part("clone routes (cross-process)", cross_process_clones(ctx))
     if not only or "immutability" in only:
         jobs = []
         for T in TYPES:
